@@ -2940,6 +2940,30 @@ def restore_class_aliases(trees, stats):
         v = st.value
         static = isinstance(v, ast.Call) and isinstance(v.func, ast.Name) and v.func.id == 'staticmethod' and len(v.args) == 1 and not v.keywords
         ref = v.args[0] if static else v
+        if isinstance(ref, ast.Name) and ref.id not in top:
+          # the function lives in another module of the package (new there) and is imported by name: a copy becomes the class member
+          modname_ = {}
+          for r_ in trees:
+            nm_ = r_[:-3].replace('/', '.')
+            modname_[nm_[:-9] if nm_.endswith('.__init__') else nm_] = r_
+          src_def = None
+          for imp in [x for x in tree.body if isinstance(x, ast.ImportFrom)]:
+            if any((a.asname or a.name) == ref.id for a in imp.names):
+              arel, src = _resolve_from(rel, imp, modname_)
+              if arel in trees:
+                real = [a.name for a in imp.names if (a.asname or a.name) == ref.id][0]
+                cands = [x for x in trees[arel].body if isinstance(x, FN) and x.name == real]
+                if len(cands) == 1 and real not in set(inv.get(arel, [])) and not cands[0].decorator_list:
+                  fr_ = set(x.id for x in ast.walk(cands[0]) if isinstance(x, ast.Name) and isinstance(x.ctx, ast.Load)) & _bound_names(trees[arel])
+                  if all(_binding_text(trees[arel], arel, n_, modname_) == _binding_text(tree, rel, n_, modname_) for n_ in fr_ if n_ != real):
+                    src_def = copy.deepcopy(cands[0])
+          q = C.name + '.' + name
+          if src_def is not None and isinstance(src_def, FN) and q in known:
+            src_def.name = name
+            src_def.decorator_list = [ast.Name(id='staticmethod', ctx=ast.Load())]
+            C.body[C.body.index(st)] = src_def
+            n += 1
+          continue
         if not isinstance(ref, ast.Name) or ref.id not in top:
           continue
         d = top[ref.id]
@@ -3150,6 +3174,10 @@ def restore_package(trees, stats):
       inline_new_constants(trees, stats)
   except Exception as e:
     stats['constant_error'] = repr(e)
+  try:
+    restore_class_aliases(trees, stats)       # again: a function that only read new constants is self-contained now
+  except Exception as e:
+    stats['alias_error'] = repr(e)
   for rel, tree in trees.items():
     try:
       unwrap_lock_decorated_helpers(tree, rel, stats)
